@@ -2,6 +2,7 @@
 // Oracle: ref/codecs.hpp pad_len / unpad_model (ISO/IEC 7816-4 as documented in utils.h).
 #include "vh_main.hpp"
 #include "codecs.hpp"
+#include <sys/mman.h>
 using namespace vh;
 
 namespace {
@@ -105,6 +106,70 @@ void explore_pad_huge(Ctx &ctx) {
         }
 }
 
+// buffers of 4 GiB and more (size_t is 64 bits wide; the arithmetic on lengths and positions must be too).  The buffer is a sparse private
+// mapping: untouched pages are the kernel's zero page, sodium_pad only touches the last `blocksize` bytes, sodium_unpad only reads.
+struct GiantCase {
+    int kind; size_t unpadded, blocksize; int capd;     // kind 0: pad (capacity = padded + capd) and unpad it again; 1: unpad one giant block with the marker at `unpadded`
+    KV kv() const { KV k; k.s("kind", "giant").u("op", kind).u("unpadded", unpadded).u("blocksize", blocksize).i("capd", capd); return k; }
+};
+uint64_t g_giant_skipped = 0;
+struct GiantMap {
+    uint8_t *p = nullptr; size_t n = 0;
+    explicit GiantMap(size_t n_) : n(n_) { void *q = mmap(nullptr, n, PROT_READ | PROT_WRITE, MAP_PRIVATE | MAP_ANONYMOUS | MAP_NORESERVE, -1, 0); p = q == MAP_FAILED ? nullptr : (uint8_t *) q; }
+    ~GiantMap() { if (p) munmap(p, n); }
+};
+bool run_giant(const GiantCase &c, std::string &msg) {
+    char b[300];
+    if (c.kind == 0) {
+        size_t padded = 0;
+        if (!ref::pad_len(c.unpadded, c.blocksize, padded) || c.unpadded < 2) return true;
+        GiantMap M(padded + 8192); if (!M.p) { g_giant_skipped++; return true; }
+        M.p[c.unpadded - 1] = 0x33; M.p[c.unpadded - 2] = 0x44; M.p[padded] = 0x55; M.p[padded + 1] = 0x66;
+        size_t cap = padded + (size_t) (long long) c.capd, plen = 0x1234567;
+        bool fits = padded <= cap;
+        int rc = sodium_pad(&plen, M.p, c.unpadded, c.blocksize, cap);
+        size_t lo = padded - std::min(padded, c.blocksize + 2); if (lo > c.unpadded - 2) lo = c.unpadded - 2;
+        auto expect = [&](size_t i, bool done) -> uint8_t { if (i == c.unpadded - 1) return 0x33; if (i == c.unpadded - 2) return 0x44; if (i == padded) return 0x55; if (i == padded + 1) return 0x66; if (done && i == c.unpadded) return 0x80; return 0; };
+        if (!fits) {
+            if (rc != -1) { snprintf(b, sizeof b, "sodium_pad(unpadded=%zu, blocksize=%zu, max=%zu) returned %d, expected -1 (padded length is %zu)", c.unpadded, c.blocksize, cap, rc, padded); msg = b; return false; }
+            for (size_t i = lo; i <= padded + 1; i++) if (M.p[i] != expect(i, false)) { snprintf(b, sizeof b, "sodium_pad(unpadded=%zu, blocksize=%zu, max=%zu) failed but wrote byte %zu", c.unpadded, c.blocksize, cap, i); msg = b; return false; }
+            if (plen != 0x1234567) { msg = "sodium_pad failed but wrote the padded length"; return false; }
+            return true;
+        }
+        if (rc != 0 || plen != padded) { snprintf(b, sizeof b, "sodium_pad(unpadded=%zu, blocksize=%zu, max=%zu) returned %d with padded length %zu, expected 0 / %zu", c.unpadded, c.blocksize, cap, rc, plen, padded); msg = b; return false; }
+        for (size_t i = lo; i <= padded + 1; i++) if (M.p[i] != expect(i, true)) { snprintf(b, sizeof b, "sodium_pad(unpadded=%zu, blocksize=%zu): byte %zu is %02x expected %02x", c.unpadded, c.blocksize, i, M.p[i], expect(i, true)); msg = b; return false; }
+        size_t ulen = 0x7654321; int urc = sodium_unpad(&ulen, M.p, padded, c.blocksize);
+        if (urc != 0 || ulen != c.unpadded) { snprintf(b, sizeof b, "sodium_unpad(pad(x)) for unpadded=%zu blocksize=%zu returned %d with length %zu", c.unpadded, c.blocksize, urc, ulen); msg = b; return false; }
+        return true;
+    }
+    GiantMap M(c.blocksize + 8192); if (!M.p) { g_giant_skipped++; return true; }
+    M.p[c.unpadded] = 0x80; if (c.unpadded) M.p[c.unpadded - 1] = 0x33;
+    size_t ulen = 0x7654321; int rc = sodium_unpad(&ulen, M.p, c.blocksize, c.blocksize);
+    if (rc != 0 || ulen != c.unpadded) { snprintf(b, sizeof b, "sodium_unpad(len=blocksize=%zu) with the marker at %zu returned %d with length %zu", c.blocksize, c.unpadded, rc, ulen); msg = b; return false; }
+    return true;
+}
+void explore_giant(Ctx &ctx) {
+    uint64_t idx = 0;
+    const size_t G = (size_t) 1 << 32;
+    std::vector<size_t> uns = { G + 5, G + ((size_t) 1 << 20) + 3, 2 * G - 1, G - 1, G, 3 * G + 12345 };
+    std::vector<size_t> bss = { 3, 7, 10, 16, 100, 255, 1000, 4096, 4097, 65537 };
+    if (ctx.thorough()) { uns.push_back(5 * G + 77); uns.push_back(G + 4095); for (size_t b : { 5u, 6u, 9u, 11u, 13u, 17u, 31u, 33u, 127u, 129u, 257u, 1023u, 65535u, 65536u, 1000003u }) bss.push_back(b); }
+    for (size_t un : uns) for (size_t bs : bss) for (int capd : { 0, -1, 1 }) {
+        if (!ctx.mine(idx++)) continue;
+        GiantCase c{ 0, un, bs, capd };
+        exec_case(ctx, c, run_giant, mix64(mix64(un, bs), (uint64_t) (capd + 2)), true);
+    }
+    // one block of more than 2^32 bytes with more than 2^32 zero bytes after the marker (the scan is linear: ~4.3e9 steps each)
+    std::vector<std::pair<size_t, size_t>> ub = { { 5, G + 16 } };
+    if (ctx.thorough()) { ub.push_back({ ((size_t) 1 << 20) + 1, G + ((size_t) 1 << 21) }); ub.push_back({ G + 9, 2 * G + 100 }); }
+    for (auto &p : ub) {
+        if (!ctx.mine(idx++)) continue;
+        GiantCase c{ 1, p.first, p.second, 0 };
+        exec_case(ctx, c, run_giant, mix64(p.first, p.second), true);
+    }
+    ctx.notes["giant_cases_skipped_mmap_failed"] = std::to_string(g_giant_skipped);
+}
+
 void explore_unpad(Ctx &ctx) {
     uint64_t idx = 0;
     static const uint8_t SYM[] = { 0x00, 0x80, 0x01, 0xff };
@@ -162,6 +227,7 @@ void explore_unpad(Ctx &ctx) {
 
 bool replay(const KV &k, std::string &msg) {
     if (k.gs("kind") == "unpad") { UnpadCase c{ k.gb("buf"), (size_t) k.gu("blocksize") }; return run_unpad(c, msg); }
+    if (k.gs("kind") == "giant") { GiantCase c{ (int) k.gu("op"), (size_t) k.gu("unpadded"), (size_t) k.gu("blocksize"), (int) k.gi("capd") }; return run_giant(c, msg); }
     PadCase c{ (size_t) k.gu("unpadded"), (size_t) k.gu("blocksize"), (size_t) k.gu("cap"), k.gu("null_lenp") != 0, k.gu("cseed") };
     return run_pad(c, msg);
 }
@@ -169,5 +235,5 @@ bool replay(const KV &k, std::string &msg) {
 }  // namespace
 
 std::vector<Sub> vh_subs() {
-    return { { "pad", explore_pad, replay }, { "pad_huge_blocks", explore_pad_huge, replay }, { "unpad", explore_unpad, replay } };
+    return { { "pad", explore_pad, replay }, { "pad_huge_blocks", explore_pad_huge, replay }, { "unpad", explore_unpad, replay }, { "giant_buffers", explore_giant, replay } };
 }
